@@ -10,7 +10,7 @@
    [scanner_ok]; when emerge reports a conflict a conflicting text is exhibited and verified, and when
    it does not, none exists.  The per-definition expressions are the C02 model of each pattern. *)
 From Coq Require Import List Bool Arith NArith.
-From Verif Require Import Base.CharSet Reg.Dfa Reg.Regex Reg.EquivCheck Reg.PatSem Reg.Scanner.
+From Verif Require Import Base.CharSet Reg.Dfa Reg.Regex Reg.EquivCheck Reg.PatSem Reg.Scanner Reg.StringDfa.
 Import ListNotations.
 Local Open Scope N_scope.
 
@@ -43,6 +43,13 @@ Theorem string_literal_denotes_its_characters :
   forall cs w, matches (lit_re cs) w <-> w = unescape cs.
 Proof. exact literal_denotation. Qed.
 Print Assumptions string_literal_denotes_its_characters.
+
+(* stringToDFA (emerge's own construction for string definitions): the chain automaton accepts exactly the literal's
+   characters, for every value; compared edge for edge with the implementation's automaton per generated value *)
+Theorem automaton_of_a_string_definition_accepts_exactly_the_literal :
+  forall value w, accepts (fst (string_dfa value)) (snd (string_dfa value)) w = true <-> w = unescape value.
+Proof. exact string_dfa_accepts_the_literal. Qed.
+Print Assumptions automaton_of_a_string_definition_accepts_exactly_the_literal.
 
 (* the winner rule on small vectors: keyword over identifier; two patterns: conflict; two literals: conflict *)
 Example winner_examples :
